@@ -2,11 +2,10 @@
 
 from __future__ import annotations
 
-import time
 from typing import Callable
 
 from .core import Program, Report, finish
-from .rules import rg, rl, rs, rt
+from .rules import rg, rk, rl, rs, rsmall, rt, ru
 from .rules.tables import TABLE
 
 ASSUME = [
@@ -18,42 +17,54 @@ ASSUME = [
 Rule = Callable[[Program, Report], None]
 
 PROPS: dict[str, dict] = {}
+NOT_APPLICABLE: dict[str, str] = {}
 
 
 def prop(pid: str, explanation: str, rules: list[Rule], thorough: list[Rule] | None = None) -> None:
-    PROPS[pid] = {"explanation": explanation, "rules": rules, "thorough": thorough or []}
+    PROPS[pid] = {"explanation": "decides structural necessary conditions only: " + explanation, "rules": rules, "thorough": thorough or []}
 
 
-prop(
-    "C14",
-    "decides structural necessary conditions only: RT (lazy copies in Mark.add_to_set / NodeType.allowed_marks are tested by identity, never by truthiness)",
-    [lambda p, r: rt.rule_rt(p, r)],
-    [rt.rule_rt_xref],
-)
+def gates(pid: str) -> Rule:
+    return lambda p, r: rg.run_gates(p, r, TABLE, pid)
 
-prop(
-    "C20",
-    "decides structural necessary conditions only: RL (no stuck cycle path) + ranking variable on find_diff_start/find_diff_end",
-    [
-        lambda p, r: rl.rule_rl(p, r, files=("prosemirror/model/diff.py",)),
-        lambda p, r: rl.rule_rl_rank(p, r, [("prosemirror/model/diff.py::find_diff_start", "counter"), ("prosemirror/model/diff.py::find_diff_end", "counter")]),
-    ],
-    [lambda p, r: rl.rule_rl(p, r)],
-)
 
-prop(
-    "C08",
-    "decides structural necessary conditions only: RS (flat record arrays ranges/mirror: writer arity, reader residues, selectors, accumulator), RI (guarded index not advanced before use), RL over map.py",
-    [
-        lambda p, r: rs.rule_rs_writers(p, r),
-        lambda p, r: rs.rule_rs_readers(p, r, ("ranges", "mirror")),
-        rs.rule_rs_selectors,
-        rs.rule_rs_accumulator,
-        rs.rule_ri,
-        lambda p, r: rl.rule_rl(p, r, files=("prosemirror/transform/map.py",)),
-        lambda p, r: rg.run_gates(p, r, TABLE, "C08"),
-    ],
-)
+FROM_TO_DOM = ("prosemirror/model/from_dom.py", "prosemirror/model/to_dom.py")
+
+prop("C01", "RG gates on the step/replace mechanisms, RK-registry (all step types decodable)", [gates("C01"), rk.rule_rk_registry])
+prop("C05", "RK-json (writer/reader key agreement for 11 to_json/from_json pairs), RK-registry, RT2 (attribute presence by membership), RG gates on conditional JSON keys", [rk.rule_rk_json, rk.rule_rk_registry, rt.rule_rt2, gates("C05")])
+prop("C06", "RK-kinds (expression kinds agree between parser, NFA compiler and type), RM (group membership on split lists), RG gates of schema build", [rk.rule_rk_kinds, rsmall.rule_rm, gates("C06")])
+prop("C08", "RS (flat record arrays ranges/mirror: writer arity, reader residues, selectors, accumulator), RI (guarded index not advanced before use), RL over map.py, RG gates of the mapping algebra", [
+    rs.rule_rs_writers,
+    lambda p, r: rs.rule_rs_readers(p, r, ("ranges", "mirror")),
+    rs.rule_rs_selectors,
+    rs.rule_rs_accumulator,
+    rs.rule_ri,
+    lambda p, r: rl.rule_rl(p, r, files=("prosemirror/transform/map.py",)),
+    gates("C08"),
+])
+prop("C09", "RU (UTF-16 positions never mixed with code-point counts in any function handling TextNode.text), RS on ResolvedPos.path, RL + ranking on find_index/resolve/node_at, RG gates (bounded child lookup)", [
+    lambda p, r: ru.rule_ru(p, r, min_funcs=8),
+    lambda p, r: rs.rule_rs_readers(p, r, ("path",)),
+    lambda p, r: rl.rule_rl(p, r, files=("prosemirror/model/fragment.py", "prosemirror/model/resolvedpos.py", "prosemirror/model/node.py")),
+    lambda p, r: rl.rule_rl_rank(p, r, [("prosemirror/model/fragment.py::Fragment.find_index", "counter"), ("prosemirror/model/resolvedpos.py::ResolvedPos.resolve", "descent"), ("prosemirror/model/node.py::Node.node_at", "descent")]),
+    gates("C09"),
+])
+prop("C12", "RE (constant index into possibly-empty wrapping), RD (no discarded result of a pure call), RG gates of the structure helpers", [rsmall.rule_re, rsmall.rule_rd, gates("C12")])
+prop("C14", "RT (lazy copies in Mark.add_to_set / NodeType.allowed_marks tested by identity), RM (mark group membership on split lists), RG gates of the mark-set algebra", [lambda p, r: rt.rule_rt(p, r), rsmall.rule_rm, gates("C14")], [rt.rule_rt_xref])
+prop("C18", "RK-spec (spec keys read are declared keys), RG gates (isolating barriers in the ancestor walkers)", [rk.rule_rk_spec, gates("C18")])
+prop("C19", "RL over from_dom/to_dom (no stuck loop path), RX (search sentinels), RA (escaping and str sinks), RT2, RG gates (mark activation)", [
+    lambda p, r: rl.rule_rl(p, r, files=FROM_TO_DOM, min_loops=10),
+    lambda p, r: rsmall.rule_rx(p, r),
+    rsmall.rule_ra,
+    rt.rule_rt2,
+    gates("C19"),
+])
+prop("C20", "RL (no stuck cycle path) + ranking variable on find_diff_start/find_diff_end, RU on the text comparisons, RG gates", [
+    lambda p, r: rl.rule_rl(p, r, files=("prosemirror/model/diff.py",)),
+    lambda p, r: rl.rule_rl_rank(p, r, [("prosemirror/model/diff.py::find_diff_start", "counter"), ("prosemirror/model/diff.py::find_diff_end", "counter")]),
+    lambda p, r: ru.rule_ru(p, r, files=("prosemirror/model/diff.py",)),
+    gates("C20"),
+], [lambda p, r: rl.rule_rl(p, r)])
 
 
 def run(pid: str, tier: str, t0: float) -> int:
